@@ -307,6 +307,9 @@ fn c20(tier: Tier) -> i32 {
         /// formatter families all attached to ONE variable of ONE key, and how they are spread over the locales
         co: Vec<&'static str>,
         co_variant: u8,
+        /// the families spread over three namespaces a < b < c: per family (plural, number, currency, date, list)
+        /// the namespace it is used in (3 = nowhere)
+        split: Option<Vec<usize>>,
     }
     let mut jobs: Vec<Job> = vec![];
     let locale_sets: Vec<(Vec<&'static str>, &'static str)> = vec![(vec!["en", "fr"], "en"), (vec!["fr", "en"], "en"), (vec!["fr"], "en"), (vec!["en", "fr", "sr-Cyrl", "zh-Hant-TW"], "en")];
@@ -317,7 +320,7 @@ fn c20(tier: Tier) -> i32 {
                     continue;
                 }
                 for (ls, d) in &locale_sets {
-                    jobs.push(Job { uses: vec![(fam, pl)], namespaced, locales: ls.clone(), default: d, co: vec![], co_variant: 0 });
+                    jobs.push(Job { uses: vec![(fam, pl)], namespaced, locales: ls.clone(), default: d, co: vec![], co_variant: 0, split: None });
                 }
             }
         }
@@ -330,7 +333,7 @@ fn c20(tier: Tier) -> i32 {
                     if tier == Tier::Quick && (p1.len() + p2.len() + f1.len() * 3 + f2.len()) % 4 != 0 {
                         continue;
                     }
-                    jobs.push(Job { uses: vec![(f1, p1), (f2, p2)], namespaced: true, locales: vec!["en", "fr"], default: "en", co: vec![], co_variant: 0 });
+                    jobs.push(Job { uses: vec![(f1, p1), (f2, p2)], namespaced: true, locales: vec!["en", "fr"], default: "en", co: vec![], co_variant: 0, split: None });
                 }
             }
         }
@@ -352,16 +355,26 @@ fn c20(tier: Tier) -> i32 {
         for co in seqs {
             for co_variant in 0..4u8 {
                 for namespaced in [false, true] {
-                    jobs.push(Job { uses: vec![("plural", if co_variant % 2 == 0 { "none" } else { "subkey-depth2" })], namespaced, locales: vec!["en", "fr"], default: "en", co: co.clone(), co_variant });
+                    jobs.push(Job { uses: vec![("plural", if co_variant % 2 == 0 { "none" } else { "subkey-depth2" })], namespaced, locales: vec!["en", "fr"], default: "en", co: co.clone(), co_variant, split: None });
                 }
             }
         }
+    }
+    // every way of spreading the five data families over three namespaces (or leaving them out): 4^5 projects
+    const SPLIT_FAMS: [&str; 5] = ["plural", "number", "currency", "date", "list"];
+    for t in vmodel::enumerate::tuples(4, 5) {
+        if tier == Tier::Quick && t.iter().filter(|x| **x == 3).count() > 1 {
+            continue;
+        }
+        jobs.push(Job { uses: vec![], namespaced: true, locales: vec!["en", "fr"], default: "en", co: vec![], co_variant: 0, split: Some(t) });
     }
     let classes = Mutex::new(BTreeMap::<String, u64>::new());
     par_for(jobs.len(), |w, i| {
         let j = &jobs[i];
         let mut cfg = Config::simple(j.default, &j.locales);
-        if j.namespaced {
+        if j.split.is_some() {
+            cfg = cfg.with_namespaces(&["a", "b", "c"]);
+        } else if j.namespaced {
             cfg = cfg.with_namespaces(&["one", "two"]);
         }
         let mut p = Project::new(cfg);
@@ -395,8 +408,26 @@ fn c20(tier: Tier) -> i32 {
                 files.entry((ns.clone(), "fr".to_string())).or_default().push(("co".into(), fr));
             }
         }
+        if let Some(t) = &j.split {
+            for (fi, nsi) in t.iter().enumerate() {
+                if *nsi == 3 {
+                    continue;
+                }
+                let ns = Some(["a", "b", "c"][*nsi].to_string());
+                let fam = SPLIT_FAMS[fi];
+                let name = format!("k{fi}");
+                files.entry((ns.clone(), "en".to_string())).or_default().extend(rename(user_value(fam, &format!("en.{name}")), &name));
+                files.entry((ns.clone(), "fr".to_string())).or_default().push((name.clone(), Val::Null));
+            }
+        }
         // every (namespace, locale) file exists; locales beyond en/fr mirror fr
-        let nss: Vec<Option<String>> = if j.namespaced { vec![Some("one".into()), Some("two".into())] } else { vec![None] };
+        let nss: Vec<Option<String>> = if j.split.is_some() {
+            vec![Some("a".into()), Some("b".into()), Some("c".into())]
+        } else if j.namespaced {
+            vec![Some("one".into()), Some("two".into())]
+        } else {
+            vec![None]
+        };
         for ns in &nss {
             for l in &eff {
                 let src = if l == "en" { "en" } else { "fr" };
@@ -410,7 +441,7 @@ fn c20(tier: Tier) -> i32 {
         let dir = root.join(format!("w{w}"));
         p.materialise(&dir, JSON).unwrap();
         rep.eval(1);
-        let desc = || format!("uses {:?} same-variable formatters {:?} (spread {}) namespaced={} locales {:?} default {}", j.uses, j.co, j.co_variant, j.namespaced, j.locales, j.default);
+        let desc = || format!("uses {:?} same-variable formatters {:?} (spread {}) families-per-namespace {:?} namespaced={} locales {:?} default {}", j.uses, j.co, j.co_variant, j.split, j.namespaced, j.locales, j.default);
         match observe(&dir, None) {
             Out::Panic(msg) => rep.violation(format!("C20: PANIC {msg} :: {}", desc()), json!({"project": p.describe()})),
             Out::Err(e) => rep.violation(format!("C20: valid project rejected by the build helper: {e} :: {}", desc()), json!({"project": p.describe()})),
@@ -448,7 +479,7 @@ fn c20(tier: Tier) -> i32 {
     rep.sample(json!({"uses": [["currency", "fk-target"]], "namespaced": true}));
     rep.sample(json!({"uses": [["plural", "surplus-only"], ["list", "range-branch"]], "expect": "list data only"}));
     let mut cov = serde_json::Map::new();
-    cov.insert("rule".into(), json!(format!("families {FAMILIES:?} x placements {PLACEMENTS:?} (none; default locale top level; non-default locale only; subkey depth 2 with the other locale null; inside a range branch; inside a plural form; only as the target of a foreign key from another key/namespace; second namespace only; only in a surplus key the default locale lacks = unreachable): every single placement x namespaced or not x 4 locale sets (default first / last / unlisted, script+region names), and pairs of (family, placement) (quick: a quarter, thorough: all); plus ONE variable of one key carrying formatters of several families: every permutation of every subset of <= 3 (thorough 4) of the 6 formatter families x 4 spreads over the locales (all in the default's string; first in the default, rest in the other locale; all in the other locale with the variable plain in the default; inside a subkey with the last only in the other locale) x namespaced or not; oracle: characteristic data key of a family (plurals/cardinal@1, list/and@1, datetime/timesymbols@1, currency/essentials@1, decimal/symbols@1 for number-or-datetime) requested iff a reachable key uses the family in some locale (model: union over locales of the resolved trees of the default locale's keys); get_locales / get_locales_langids == configured set, get_namespaces == configured list, files_paths complete; distinct_nontrivial = distinct used-family sets")));
+    cov.insert("rule".into(), json!(format!("families {FAMILIES:?} x placements {PLACEMENTS:?} (none; default locale top level; non-default locale only; subkey depth 2 with the other locale null; inside a range branch; inside a plural form; only as the target of a foreign key from another key/namespace; second namespace only; only in a surplus key the default locale lacks = unreachable): every single placement x namespaced or not x 4 locale sets (default first / last / unlisted, script+region names), and pairs of (family, placement) (quick: a quarter, thorough: all); plus ONE variable of one key carrying formatters of several families: every permutation of every subset of <= 3 (thorough 4) of the 6 formatter families x 4 spreads over the locales (all in the default's string; first in the default, rest in the other locale; all in the other locale with the variable plain in the default; inside a subkey with the last only in the other locale) x namespaced or not; plus every way of spreading plural / number / currency / date / list over three namespaces a < b < c or leaving them out (4^5 projects; quick: at most one left out); oracle: characteristic data key of a family (plurals/cardinal@1, list/and@1, datetime/timesymbols@1, currency/essentials@1, decimal/symbols@1 for number-or-datetime) requested iff a reachable key uses the family in some locale (model: union over locales of the resolved trees of the default locale's keys); get_locales / get_locales_langids == configured set, get_namespaces == configured list, files_paths complete; distinct_nontrivial = distinct used-family sets")));
     cov.insert("exhaustive".into(), json!(tier == Tier::Thorough));
     cov.insert("used_family_sets".into(), json!(*classes.lock().unwrap()));
     let _ = std::fs::remove_dir_all(&root);
